@@ -112,7 +112,9 @@ impl Fetcher {
     /// Mark a fetch as failed for the [`NodeId`], using the provided `reason`.
     pub fn fetch_failed(&mut self, node: NodeId, reason: impl ToString) {
         let reason = reason.to_string();
-        self.results.push(node, FetchResult::Failed { reason })
+        if self.results.get(&node).is_none() {
+            self.results.push(node, FetchResult::Failed { reason })
+        }
     }
 
     /// Mark a fetch as complete for the [`NodeId`], with the provided
@@ -133,7 +135,12 @@ impl Fetcher {
         if node == self.local_node {
             return ControlFlow::Continue(self.progress());
         }
-        self.results.push(node, result);
+        // N.b. a node may have been handed out more than once, if it was a
+        // candidate more than once and had no result yet. Only its first result
+        // counts, otherwise the same node is counted as several replicas.
+        if self.results.get(&node).is_none() {
+            self.results.push(node, result);
+        }
         self.finished()
     }
 
